@@ -61,7 +61,9 @@ class PropMetadata(BaseModel):
                 name = "str"
             else:
                 name = np_dtype.name
-        except TypeError as err:
+        except (TypeError, SyntaxError) as err:
+            # numpy evaluates comma-separated dtype strings such as "," or "i4,," as Python
+            # source and lets the SyntaxError escape; it is an unparsable dtype like any other
             raise ValueError(
                 f"Provided dtype {value} cannot be parsed into any of the valid dtypes "
                 f"{VALID_DTYPES}"
